@@ -9,7 +9,28 @@
 #include <iostream>
 #include <exception>
 
+#include <csignal>
+#include <sys/time.h>
+#include <unistd.h>
+
 namespace hv {
+
+// Per-case time limit in CPU seconds of this process (ITIMER_PROF -> SIGPROF), with a generous wall-clock backstop
+// (alarm -> SIGALRM, ten times as long). A limit in wall-clock time alone raised false alarms when the machine was
+// loaded by other runs; the property's "completes within 10 s" is about the work done, which CPU time measures.
+// cpu_alarm(0) cancels both. The caller installs ONE handler for SIGPROF and SIGALRM (install_alarm_handler).
+inline void cpu_alarm(int seconds) {
+  struct itimerval tv;
+  tv.it_interval.tv_sec = 0; tv.it_interval.tv_usec = 0;
+  tv.it_value.tv_sec = seconds; tv.it_value.tv_usec = 0;
+  setitimer(ITIMER_PROF, &tv, nullptr);
+  alarm(seconds == 0 ? 0 : 10 * (unsigned) seconds);
+}
+inline void install_alarm_handler(void (*handler)(int)) {
+  signal(SIGPROF, handler);
+  signal(SIGALRM, handler);
+}
+
 
 inline std::string hex_encode(const std::string& s) {
   static const char* d = "0123456789abcdef";
